@@ -41,6 +41,8 @@ ValuesOK(e) ==
 LanesFrameOK(e) ==
     LET g == e.g  ax == e.axis + 1 IN
     /\ Len(e.mem0) = Len(e.mem1)
+    \* the receiver itself still denotes the same elements in the same order (shape, strides, first element), also after a rejected request
+    /\ Has(e, "g1") => e.g1 = e.g
     /\ LET A == AddrSet(g) IN \A k \in 0..(Len(e.mem0) - 1) : k \notin A => Cell(e.mem1, k) = Cell(e.mem0, k)
     /\ \A t \in 0..(NumLanes(g, ax) - 1) :
           LET v == LaneOf(g, ax, t)
